@@ -173,4 +173,15 @@ theorem C04_schema_async_exact (j : Option Json.J) (a : Option Async) (h : Codec
         (ns + 99999999) / 100000000 = aa.timeout) :=
   Codec.checkAsync_ok j a h
 
+/-- an accepted field index of schema.json carries the model's name, cast, constraints and number
+    of entries -/
+theorem C04_schema_field_index_exact (fileIds modelIds : List (Nat × Nat)) (j : Json.J) (fi : FieldIdx)
+    (h : Codec.checkFieldIndex fileIds modelIds j fi = .ok ()) :
+    Codec.getStr j "name" = .ok (Codec.sbytes fi.name) ∧ Codec.getStr j "cast" = .ok (Codec.sbytes fi.cast.name) ∧
+    (∃ cj, j.get? "constraints" = some cj ∧
+      Codec.getBool cj "index" (some false) = .ok fi.cons.index ∧ Codec.getBool cj "unique" (some false) = .ok fi.cons.unique ∧
+      Codec.getBool cj "upper" (some false) = .ok fi.cons.upper ∧ Codec.getBool cj "lower" (some false) = .ok fi.cons.lower) ∧
+    ∃ l, j.get? "index" = some (.arr l) ∧ l.length = fi.idx.length :=
+  Codec.checkFieldIndex_ok fileIds modelIds j fi h
+
 end Sod.Props
